@@ -336,10 +336,16 @@ package store
 //@   requires [name-safe]{C16} safeRel(repoStr)
 //@   fspath [inside-root]{C16} within(path, d.root)
 //@   assert [repo-dir-inside-root]{C16} before call Cache.Set#1: within(dr#2.path, d.root)
+//@   -- the number of open upload sessions of a repository is bounded (C08): the session cache is built with the configured limit
+//@   -- and expiry, each under its own condition
+//@   assert [session-limit-configured]{C08} before "cache.New[string, *dirRepoUpload]": (d.conf.Storage.GC.RepoUploadMax > 0 ==> arg0.Count == d.conf.Storage.GC.RepoUploadMax) &&
+//@             (d.conf.Storage.GC.GracePeriod > 0 ==> arg0.Age == d.conf.Storage.GC.GracePeriod)
 
 //@ func (m *mem) RepoGet(ctx context.Context, repoStr string) (repo Repo, err error)
 //@   requires [name-safe]{C16} safeRel(repoStr)
 //@   assert [repo-dir-inside-root]{C16} before call memRepo.repoInit#1: within(mr#2.path, m.conf.Storage.RootDir)
+//@   assert [session-limit-configured]{C08} before "cache.New[string, *memRepoUpload]": (m.conf.Storage.GC.RepoUploadMax > 0 ==> arg0.Count == m.conf.Storage.GC.RepoUploadMax) &&
+//@             (m.conf.Storage.GC.GracePeriod > 0 ==> arg0.Age == m.conf.Storage.GC.GracePeriod)
 
 //@ -- no other function of the package touches the file system
 //@ funcs * !dirRepo.* !dirRepoUpload.* !memRepo.* !dir.RepoGet
@@ -552,7 +558,7 @@ package store
 
 //@ func (dr *dirRepo) IndexInsert(desc types.Descriptor, opts []types.IndexOpt) (err error)
 //@   requires [one-kind]{C18} types.tagOf(desc) == "" || types.subjOf(desc) == ""
-//@   ensures [acknowledged-means-saved]{C09,C10} err == nil ==> renamedTo(pathJoin(dr.path, "index.json")) > old(renamedTo(pathJoin(dr.path, "index.json")))
+//@   ensures [acknowledged-means-saved]{C09,C10,C03} err == nil ==> renamedTo(pathJoin(dr.path, "index.json")) > old(renamedTo(pathJoin(dr.path, "index.json")))
 //@   requires invariant [annotations-owned-by-caller] types.addNoAlias(dr.index, desc)
 
 //@ -- the index read from disk is taken to be well-formed (see above): stated, open
@@ -566,4 +572,4 @@ package store
 //@   requires invariant [uploads-cache] uploadsInv(recv.uploads)
 
 //@ func (dr *dirRepo) IndexRemove(desc types.Descriptor) (err error)
-//@   ensures [acknowledged-means-saved]{C09,C10} err == nil ==> renamedTo(pathJoin(dr.path, "index.json")) > old(renamedTo(pathJoin(dr.path, "index.json")))
+//@   ensures [acknowledged-means-saved]{C09,C10,C03} err == nil ==> renamedTo(pathJoin(dr.path, "index.json")) > old(renamedTo(pathJoin(dr.path, "index.json")))
